@@ -239,6 +239,11 @@ func init() {
 				add(5, 2, rev)
 				add(5, 3, rev)
 				add(5, 4, rev)
+				if rev == 0 || tier == "thorough" {
+					// time-ordered read under a symbolic window on 5 messages in 3 chunks (2+2+1): the smallest shape in
+					// which the iterator must load MORE than one further chunk before it may yield (harness shared with C20)
+					js = append(js, &Job{Module: "mcap", Harness: "VC20Slots", Params: P("n", 5, "per", 2, "ord", 1+rev, "win", 1, "grow", 0), TimeoutS: 1800})
+				}
 				if tier == "thorough" {
 					add(6, 2, rev)
 					add(6, 3, rev)
@@ -248,10 +253,10 @@ func init() {
 			return js
 		},
 		bounds: map[string]any{
-			"quick":    map[string]any{"files": "3 messages in 3 chunks; 4 messages in 2 and in 4 chunks; 5 messages in 3 chunks (2+2+1) and in 2 chunks (3+2, 4+1)", "channels": 2, "symbolic": "every log time (full 64 bit), payload bytes", "reads": "each order twice"},
+			"quick":    map[string]any{"files": "3 messages in 3 chunks; 4 messages in 2 and in 4 chunks; 5 messages in 3 chunks (2+2+1) and in 2 chunks (3+2, 4+1)", "channels": 2, "symbolic": "every log time (full 64 bit), payload bytes", "reads": "each order twice; plus a log-time-ordered read under a symbolic window [s,e) on the 2+2+1 file (sortedness, and exactly the messages inside the window)"},
 			"thorough": map[string]any{"files": "as quick + 6 messages (2 or 3 per chunk) and 7 messages (3 per chunk)", "channels": 2, "symbolic": "every log time (full 64 bit)"},
 		},
-		outside:     append([]string{"more than 7 messages / 4 chunks (in particular: more than 12 pending message indexes, where a library sort may switch algorithm)", "combination with time windows and topic filters is decided in C04"}, outsideCommon...),
+		outside:     append([]string{"more than 7 messages / 4 chunks (in particular: more than 12 pending message indexes, where a library sort may switch algorithm)", "combination with topic filters is decided in C04 (windows: one shape here, the rest in C04)"}, outsideCommon...),
 		assumptions: append([]string{"while known finding C04-K1 is listed: no message log time equals 2^64-1"}, commonAssumptions...),
 	}
 }
@@ -633,8 +638,8 @@ func init() {
 				js = append(js, &Job{Module: "mcap", Harness: "VC20Slots", Params: P("n", 3, "per", 1, "ord", ord, "win", 0, "grow", 1), TimeoutS: 2400})
 			}
 			for ord := 1; ord <= 2; ord++ {
-				if ord == 2 && tier == "quick" {
-					continue
+				if tier == "quick" {
+					continue // (this shape runs under C03's quick tier)
 				}
 				// three chunks, two of two messages, under a window: the smallest shape in which loading ONE more chunk
 				// before yielding is not enough
@@ -674,7 +679,7 @@ func init() {
 			return js
 		},
 		bounds: map[string]any{
-			"quick":    map[string]any{"index_based": "files of 3 messages/3 chunks (also with chunk sizes growing along the file), 4 messages/2 chunks, 4 messages/4 chunks, 5 messages/3 chunks (windowed, time orders); every log time symbolic (64 bit): every overlap/nesting/backwards arrangement of the chunk time ranges; the bound (overlap depth, computed from the symbolic chunk ranges; 1 in file order) is asserted after every NextInto, in all three orders, without and with a symbolic time window [s,e); the windowed reads are also checked for order and for returning exactly the messages inside the window", "sequential": "T5/T6 at three chunk sizes: single chunk buffer, replaced only by a larger one, <= 2x largest chunk, none when not validating", "attachments": "70000 and 33000 data bytes (symbolic content) through WriteAttachment and the lexer (with a callback reading in 4 KiB pieces, and with no callback, also under the non-indexed iterator) with a ceiling of 33000/32900 bytes on any single library allocation (io.Copy's fixed 32 KiB buffer is the largest)"},
+			"quick":    map[string]any{"index_based": "files of 3 messages/3 chunks (also with chunk sizes growing along the file), 4 messages/2 chunks, 4 messages/4 chunks (thorough: 5 messages/3 chunks windowed); every log time symbolic (64 bit): every overlap/nesting/backwards arrangement of the chunk time ranges; the bound (overlap depth, computed from the symbolic chunk ranges; 1 in file order) is asserted after every NextInto, in all three orders, without and with a symbolic time window [s,e); the windowed reads are also checked for order and for returning exactly the messages inside the window", "sequential": "T5/T6 at three chunk sizes: single chunk buffer, replaced only by a larger one, <= 2x largest chunk, none when not validating", "attachments": "70000 and 33000 data bytes (symbolic content) through WriteAttachment and the lexer (with a callback reading in 4 KiB pieces, and with no callback, also under the non-indexed iterator) with a ceiling of 33000/32900 bytes on any single library allocation (io.Copy's fixed 32 KiB buffer is the largest)"},
 			"thorough": map[string]any{"index_based": "up to 6 messages / 5 chunks", "attachments": "up to 200000 bytes"},
 		},
 		outside:     append([]string{"more than 6 chunks (the property mentions 1000 chunks and overlap depth 8: far outside)", "attachment sizes are enumerated, not symbolic", "process-level memory (RSS); zstd/lz4 decoder buffers"}, outsideCommon...),
